@@ -7,7 +7,8 @@ r = json.load(open(sys.argv[1]))
 wd = workdir('replay')
 if r.get('suite_src'):            # one of the repository's own programs, traced through the shim
     import suite
-    ex, sk = suite.run_suite(wd, only=[r['suite_src']])
+    sa = r.get('suite_args') or {}
+    ex, sk = suite.run_suite(wd, only=[r['suite_src']], max_evals=sa.get('max_evals', 200), force_seed=sa.get('seed'))
     if not ex:
         print('ERROR cannot re-run', r['suite_src'], sk); sys.exit(2)
     e = ex[0]
